@@ -862,6 +862,8 @@ class Interp:
                             cell = dv.fields[1]
                             cell.fields[1] = 0 if dv.kind == "adt:RefMut" else max(0, cell.fields[1] - 1)
                             dv.fields[1] = None
+                        else:
+                            self.run_drop(dv, 0)
                         nxt = s[2]
                     elif k == "assert":
                         c = self.operand(fr, s[1])
@@ -960,6 +962,22 @@ class Interp:
             raise Unsupported("no model for callee `%s` (key %s)" % (callee, key))
         self.stats.models_used.add(m.__name__ if hasattr(m, "__name__") else str(m))
         return m(self, args, callee)
+
+    def run_drop(self, v, depth):
+        """Drop glue for crate types: a value of a type with `impl Drop` runs its `drop` (then its fields are dropped in turn)."""
+        if depth > 4 or not isinstance(v, Agg) or not isinstance(v.kind, str) or not v.kind.startswith("adt:"):
+            return
+        name = v.kind[4:]
+        if (name, "Drop", "drop") in self.p.trait_impls:
+            try:
+                f = self.p.find_trait_fn(name, "Drop", "drop")
+            except ResolveError:
+                f = None
+            if f is not None:
+                self.call_function(f, [Ref([v], 0, True)])
+        if name in self.p.structs:
+            for x in v.fields:
+                self.run_drop(x, depth + 1)
 
     def call_value(self, f, args):
         """Call a closure / fn item value with positional args."""
